@@ -441,6 +441,14 @@ struct rec_visitor
     }
 };
 
+// get_by_tag / set_by_tag on a direct member of a level (C19: must behave
+// exactly like the named accessor)
+struct tagged_ops
+{
+    std::function<cursor_ret(char*, std::size_t, ipath)> tget;
+    std::function<cursor_ret(char*, std::size_t, ipath)> named;
+    std::function<void(char*, std::size_t, ipath, const bytes&)> tset; // scalars
+};
 struct visit_ops
 {
     // returns the cursor offset (relative to the message start) afterwards
@@ -451,6 +459,7 @@ struct registry
 {
     std::map<std::string, member_ops> members;
     std::map<std::string, visit_ops> visits;
+    std::map<std::string, tagged_ops> tagged;
     std::map<std::string, leaf_ops> leaves;
     std::map<std::string, level_ops> levels;
     std::map<std::string, group_ops> groups;
@@ -496,6 +505,13 @@ struct reg_member
     reg_member(const char* k, member_ops o)
     {
         registry::get().members[k] = std::move(o);
+    }
+};
+struct reg_tagged
+{
+    reg_tagged(const char* k, tagged_ops o)
+    {
+        registry::get().tagged[k] = std::move(o);
     }
 };
 struct reg_visit
@@ -673,6 +689,26 @@ void assign_data(D d, const bytes& b)
         }                                                                     \
         cur = c.pointer() ? c.pointer() - p : ::vh::cur_unset;                \
     }
+
+#define VH_TGET_BODY(M, LV, NAME, TAG)                                        \
+    [](char* p, std::size_t n, ::vh::ipath ip) -> ::vh::cursor_ret            \
+    { return ::vh::cret(p, ::sbepp::get_by_tag<TAG>(LV(M{p, n}, ip))); },     \
+        [](char* p, std::size_t n, ::vh::ipath ip) -> ::vh::cursor_ret        \
+    { return ::vh::cret(p, LV(M{p, n}, ip).NAME()); }
+#define VH_REG_TAGGED_scalar(KEY, M, LV, NAME, TAG)                           \
+    static ::vh::reg_tagged VH_CAT(vh_r_, __COUNTER__)(                       \
+        KEY,                                                                  \
+        ::vh::tagged_ops{                                                     \
+            VH_TGET_BODY(M, LV, NAME, TAG),                                   \
+            [](char* p, std::size_t n, ::vh::ipath ip, const ::vh::bytes& b)  \
+            {                                                                 \
+                auto lv = LV(M{p, n}, ip);                                    \
+                ::sbepp::set_by_tag<TAG>(                                     \
+                    lv, ::vh::dec<decltype(lv.NAME())>(b));                   \
+            }})
+#define VH_REG_TAGGED_view(KEY, M, LV, NAME, TAG)                             \
+    static ::vh::reg_tagged VH_CAT(vh_r_, __COUNTER__)(                       \
+        KEY, ::vh::tagged_ops{VH_TGET_BODY(M, LV, NAME, TAG), nullptr})
 
 #define VH_REG_CMEMBER_scalar(KEY, M, LV, NAME)                               \
     static ::vh::reg_member VH_CAT(vh_r_, __COUNTER__)(                       \
